@@ -155,6 +155,17 @@ fn matvec(h: &[Vec<f64>], x: &[f64]) -> Vec<f64> {
     h.iter().map(|r| dotv(r, x)).collect()
 }
 /// dense solve with partial pivoting (oracle side only)
+/// `a x = b` for a Hessian-like `a` (entries ∝ 1/(σᵢσⱼ)): equilibrated with `D = diag(σ)` before the
+/// elimination (`(D a D) y = D b`, `x = D y`), so that partial pivoting works on O(1) entries — the
+/// unscaled solve lost up to 7 digits at points whose coordinates span 12 orders of magnitude
+/// (oracle-side rounding, found at seed 3 × 24 budget on exp.higher_correction).
+fn solve_scaled(a: &[Vec<f64>], b: &[f64], sig: &[f64]) -> Option<Vec<f64>> {
+    let n = b.len();
+    let a2: Vec<Vec<f64>> = (0..n).map(|i| (0..n).map(|j| sig[i] * a[i][j] * sig[j]).collect()).collect();
+    let b2: Vec<f64> = (0..n).map(|i| sig[i] * b[i]).collect();
+    let y = solve_dense(&a2, &b2)?;
+    Some((0..n).map(|i| sig[i] * y[i]).collect())
+}
 fn solve_dense(a: &[Vec<f64>], b: &[f64]) -> Option<Vec<f64>> {
     let n = b.len();
     let mut m: Vec<Vec<f64>> = a.iter().zip(b).map(|(r, &bi)| { let mut r = r.clone(); r.push(bi); r }).collect();
@@ -226,8 +237,10 @@ fn resp(out: &str) -> Option<Req> {
 }
 const EPS: f64 = f64::EPSILON;
 use std::sync::atomic::{AtomicUsize, Ordering};
-/// occurrences of the known finding NR-START-RIGHT-OF-ROOT seen by the conjugacy oracle
-static KNOWN_POW_START: AtomicUsize = AtomicUsize::new(0);
+/// largest observed (conjugacy error / tolerance) of `gradient_primal` per cone kind (f64 bits):
+/// the head-room of the oracle, written to the evidence notes
+static CONJ_HEADROOM: [std::sync::atomic::AtomicU64; 3] =
+    [std::sync::atomic::AtomicU64::new(0), std::sync::atomic::AtomicU64::new(0), std::sync::atomic::AtomicU64::new(0)];
 /// genpow update_scaling calls that accepted a dual point with a non-positive u-coordinate
 static ACCEPTED_NONPOS_U: AtomicUsize = AtomicUsize::new(0);
 
@@ -525,6 +538,19 @@ impl K {
         }
         eta
     }
+    /// `Cone::combined_ds_shift(shift, step_z, step_s, σμ)` on the scaled cone object
+    fn combined_ds_shift(&mut self, dz: &[f64], ds: &[f64], sm: f64) -> Vec<f64> {
+        // poisoned so that an entry the routine does not write shows up
+        let mut shift = vec![f64::NAN; dz.len()];
+        let mut dz = dz.to_vec();
+        let mut ds = ds.to_vec();
+        match self {
+            K::E(k) => k.combined_ds_shift(&mut shift, &mut dz, &mut ds, sm),
+            K::P(k) => k.combined_ds_shift(&mut shift, &mut dz, &mut ds, sm),
+            K::G(k) => k.combined_ds_shift(&mut shift, &mut dz, &mut ds, sm),
+        }
+        shift
+    }
     fn update_scaling(&mut self, s: &[f64], z: &[f64], mu: f64, dual: bool) -> bool {
         let st = if dual { ScalingStrategy::Dual } else { ScalingStrategy::PrimalDual };
         match self {
@@ -642,6 +668,16 @@ fn run_higher_correction(r: &Req) -> String {
     let z = r.fs("z");
     k.update_scaling(&z, &z, 1.0, true);
     Line::out().fs("eta", &k.higher_correction(&r.fs("ds"), &r.fs("v"))).done()
+}
+fn run_combined_ds_shift(r: &Req) -> String {
+    let mut k = K::of(r);
+    let z = r.fs("z");
+    let ok = k.update_scaling(&z, &z, 1.0, true);
+    let shift = k.combined_ds_shift(&r.fs("dz"), &r.fs("ds"), r.f("sigmamu"));
+    match k {
+        K::G(_) => Line::out().b("ok", ok).fs("shift", &shift).done(),
+        _ => Line::out().fs("shift", &shift).done(),
+    }
 }
 fn run_update_scaling(r: &Req) -> String {
     let mut k = prepared(r);
@@ -813,38 +849,18 @@ fn oracle_gradient_primal(r: &Req, out: &str) -> Result<(), String> {
         let back = cm.grad(&mg);
         let ms: Vec<f64> = s.iter().map(|v| -v).collect();
         let inv: Vec<f64> = inf.sigma.iter().map(|v| 1.0 / v).collect();
-        if let Err(e) = close_scaled("conjugacy ∇f*(-g(s)) (vs -s)", &back, &ms, &inv, 1e-6 * k * di.kappa) {
-            let tag = pow_start_tag(&cm, &s, &g);
-            if !tag.is_empty() {
-                // the known finding is reported once per run (the other occurrences are
-                // counted and written to the notes), so that it cannot crowd other
-                // failures out of the session's report
-                if KNOWN_POW_START.fetch_add(1, Ordering::Relaxed) >= 1 {
-                    return Ok(());
-                }
-            }
-            return Err(format!("{}{}", tag, e));
+        // same tolerance for all three cones (the power cone's Newton start was repaired in
+        // /repo 54b486f; the former KNOWN-FINDING handling of NR-START-RIGHT-OF-ROOT is gone)
+        let tolc = 1e-6 * k * di.kappa;
+        let worst = (0..s.len()).map(|i| (back[i] - ms[i]).abs() * inv[i]).fold(0.0, f64::max) / tolc;
+        let slot = match &cm { ConeMath::Exp => 0, ConeMath::Pow(_) => 1, ConeMath::Gen(..) => 2 };
+        if worst.is_finite() {
+            // non-negative finite f64s order like their bit patterns
+            CONJ_HEADROOM[slot].fetch_max(worst.to_bits(), Ordering::Relaxed);
         }
+        close_scaled("conjugacy ∇f*(-g(s)) (vs -s)", &back, &ms, &inv, tolc)?;
     }
     Ok(())
-}
-
-/// Known finding: the power cone's Newton–Raphson start x0 lies to the right of the root, the
-/// one-sided iteration stops at the first (negative) step and x0 is returned unrefined.  The
-/// tag is attached only when the response is fully explained by that.
-fn pow_start_tag(cm: &ConeMath, s: &[f64], g: &[f64]) -> String {
-    if let ConeMath::Pow(a) = cm {
-        let a = *a;
-        let phi = s[0].powf(2.0 * a) * s[1].powf(2.0 - a * 2.0);
-        let s3 = s[2].abs();
-        let x0 = -s3.recip() + (s3 * 2.0 + f64::sqrt((phi * phi) / (s3 * s3) + phi * 3.0)) / (phi - s3 * s3);
-        let g0 = -(a * g[2] * s[2] + 1.0 + a) / s[0];
-        let g1 = -((1.0 - a) * g[2] * s[2] + 2.0 - a) / s[1];
-        if g[2].abs().to_bits() == x0.to_bits() && (g[0] - g0).abs() <= 1e-12 * g0.abs() && (g[1] - g1).abs() <= 1e-12 * g1.abs() {
-            return "NR-START-RIGHT-OF-ROOT (g[2] is the unrefined Newton start x0): ".to_string();
-        }
-    }
-    String::new()
 }
 
 fn oracle_barrier_primal(r: &Req, out: &str) -> Result<(), String> {
@@ -884,7 +900,7 @@ fn oracle_higher_correction(r: &Req, out: &str) -> Result<(), String> {
     let ds = r.fs("ds");
     let v = r.fs("v");
     let h = cm.hess(&z);
-    let u = match solve_dense(&h, &ds) {
+    let u = match solve_scaled(&h, &ds, &inf.sigma) {
         Some(u) => u,
         None => return Ok(()),
     };
@@ -896,6 +912,45 @@ fn oracle_higher_correction(r: &Req, out: &str) -> Result<(), String> {
     let k = inf.kappa;
     let tol = 1e-10 * k * k * k * k * un * vn + 1e-300;
     close_scaled("higher_correction (vs ½∇³f*(z)[H⁻¹Δs, v])", &eta, &want, &inf.sigma, tol)
+}
+
+/// `combined_ds_shift`: shift = σμ·∇f*(z) − ½∇³f*(z)[H⁻¹Δs, Δz] for the 3-d cones (Δs = step_s,
+/// Δz = step_z), and σμ·∇f*(z) (no third-order term) for the generalised power cone.
+fn oracle_combined_ds_shift(r: &Req, out: &str) -> Result<(), String> {
+    let cm = ConeMath::of(r);
+    let z = r.fs("z");
+    let inf = cm.info(&z, true);
+    if inf.member != Some(true) || inf.kappa > 1e3 {
+        return Ok(());
+    }
+    let o = resp(out).ok_or(format!("no shift on an interior point: {}", out))?;
+    let shift = o.fs("shift");
+    let sm = r.f("sigmamu");
+    let n = z.len();
+    let k = inf.kappa;
+    let g = cm.grad(&z);
+    let gn = (0..n).map(|i| g[i].abs() * inf.sigma[i]).fold(0.0, f64::max);
+    if let ConeMath::Gen(..) = &cm {
+        if !o.b("ok") {
+            return Err("update_scaling refused an interior dual point".into());
+        }
+        let want: Vec<f64> = g.iter().map(|x| sm * x).collect();
+        let tol = 1e-12 * k * k * sm.abs() * (1.0 + gn) + 1e-300;
+        return close_scaled("combined_ds_shift (vs σμ·∇f*(z))", &shift, &want, &inf.sigma, tol);
+    }
+    let ds = r.fs("ds");
+    let v = r.fs("dz");
+    let h = cm.hess(&z);
+    let u = match solve_scaled(&h, &ds, &inf.sigma) {
+        Some(u) => u,
+        None => return Ok(()),
+    };
+    let t = cm.third(&z, &u, &v);
+    let want: Vec<f64> = (0..3).map(|i| sm * g[i] - 0.5 * t[i]).collect();
+    let un = (0..3).map(|i| u[i].abs() / inf.sigma[i]).fold(0.0, f64::max);
+    let vn = (0..3).map(|i| v[i].abs() / inf.sigma[i]).fold(0.0, f64::max);
+    let tol = 1e-10 * k * k * k * k * un * vn + 1e-12 * k * k * sm.abs() * (1.0 + gn) + 1e-300;
+    close_scaled("combined_ds_shift (vs σμ·∇f*(z) − ½∇³f*(z)[H⁻¹Δs, Δz])", &shift, &want, &inf.sigma, tol)
 }
 
 fn oracle_update_scaling(r: &Req, out: &str) -> Result<(), String> {
@@ -1311,6 +1366,7 @@ macro_rules! cone_channels {
             ch(concat!($p, ".update_scaling"), T_ULP, run_update_scaling, Some(oracle_update_scaling), concat!($rs, "::update_scaling, mul_Hs, get_Hs; use_primal_dual_scaling / use_dual_scaling"), concat!($ln, ".updateScaling / Nonsym.usePrimalDualScaling / C14.pd_scaling")),
             ch(concat!($p, ".unit_initialization"), Tol::Exact, run_unit_initialization, Some(oracle_unit_initialization), concat!($rs, "::unit_initialization"), concat!($ln, ".unitInitialization / C14.central_point")),
             ch(concat!($p, ".compute_barrier"), T_ULP, run_compute_barrier, Some(oracle_compute_barrier), concat!($rs, "::compute_barrier"), concat!($ln, ".computeBarrier")),
+            ch(concat!($p, ".combined_ds_shift"), T_ULP, run_combined_ds_shift, Some(oracle_combined_ds_shift), concat!($rs, "::combined_ds_shift"), concat!($ln, ".combinedDsShift / C14 combined_ds_shift")),
             ch(concat!($p, ".step_length"), Tol::Exact, run_step_length, Some(oracle_step_length), concat!($rs, "::step_length, backtrack_search"), concat!($ln, ".stepLength / Nonsym.backtrackSearch")),
         ]
     };
@@ -1574,6 +1630,17 @@ fn gen_for_cone(s: &mut Session, cm: &ConeMath, reps: usize) {
             s.submit(base(cm, "higher_correction").fs("z", &z).fs("ds", &ds).fs("v", &v).done());
         }
 
+        // combined_ds_shift: σμ·grad (− third-order correction for the 3-d cones)
+        {
+            let z = if s.rng.bool(0.9) { interior_mild(&mut s.rng, cm, true) } else { interior(&mut s.rng, cm, true) };
+            let iz = cm.info(&z, true);
+            let inv: Vec<f64> = iz.sigma.iter().map(|v| 1.0 / v).collect();
+            let ds = direction(&mut s.rng, &inv, 1.0);
+            let dz = direction(&mut s.rng, &iz.sigma, 1.0);
+            let sm = if s.rng.bool(0.1) { 0.0 } else { lm(&mut s.rng, -6.0, 3.0) };
+            s.submit(base(cm, "combined_ds_shift").fs("z", &z).fs("dz", &dz).fs("ds", &ds).f("sigmamu", sm).done());
+        }
+
         // line search and merit function
         let z = interior_mild(&mut s.rng, cm, true);
         let sp = interior_mild(&mut s.rng, cm, false);
@@ -1675,10 +1742,11 @@ fn generate(s: &mut Session) {
     for (al, d2) in [(vec![0.3, 0.7], 2usize), (vec![1.0], 1), (vec![0.5, 0.6], 1), (vec![0.5, 0.5, 0.0], 1), (vec![1.5, -0.5], 2), (vec![0.2, 0.3, 0.5], 0)] {
         s.submit(Line::new("genpow.new").fs("alpha", &al).u("dim2", d2).done());
     }
-    // exact boundary / exterior / NaN dual points for the generalised power cone's update
+    // exact boundary / exterior / NaN dual points for the generalised power cone's update; the last
+    // one is the counterexample of theorem C14.genpow_update_scaling_test (accepted although ∉ K*)
     {
         let cm = ConeMath::Gen(vec![0.5, 0.5], 1);
-        for z in [[1.0, 1.0, 2.0], [1.0, 1.0, 2.5], [1.0, 1.0, 1.5], [1.0, 0.0, 0.0], [1.0, f64::NAN, 0.1], [-1.0, 1.0, 0.0], [-1.0, -1.0, 0.5]] {
+        for z in [[1.0, 1.0, 2.0], [1.0, 1.0, 2.5], [1.0, 1.0, 1.5], [1.0, 0.0, 0.0], [1.0, f64::NAN, 0.1], [-1.0, 1.0, 0.0], [-1.0, -1.0, 0.5], [-1.0, -1.0, 0.0]] {
             s.submit(base(&cm, "update_scaling").fs("s", &[1.0, 1.0, 0.0]).fs("z", &z).f("mu", 1.0).b("dual", true).fs("x", &[1.0, 2.0, 3.0]).done());
             s.submit(base(&cm, "update_scaling").fs("zprev", &[1.0, 1.2, 0.2]).fs("s", &[1.0, 1.0, 0.0]).fs("z", &z).f("mu", 2.0).b("dual", true).fs("x", &[1.0, 2.0, 3.0]).done());
         }
@@ -1708,13 +1776,11 @@ fn generate(s: &mut Session) {
             gen_for_cone(s, &cm, reps);
         }
     }
+    let hr: Vec<f64> = CONJ_HEADROOM.iter().map(|a| f64::from_bits(a.load(Ordering::Relaxed))).collect();
+    s.note(format!("gradient_primal conjugacy: largest error/tolerance seen — exp {:.2e}, pow {:.2e}, genpow {:.2e} (tolerance 1e-6·κ(s)·κ(-g); the Newton loops stop at |dx/x| < √ε ≈ 1.5e-8)", hr[0], hr[1], hr[2]));
     let a = ACCEPTED_NONPOS_U.load(Ordering::Relaxed);
     if a > 0 {
         s.note(format!("GenPowerCone::update_scaling accepted {} dual points with a non-positive u-coordinate (ζ > 0 because 2αᵢ is an integer); is_dual_feasible rejects them, so they are outside the solver's reach", a));
-    }
-    let k = KNOWN_POW_START.load(Ordering::Relaxed);
-    if k > 0 {
-        s.note(format!("known finding NR-START-RIGHT-OF-ROOT: PowerCone::gradient_primal returned the unrefined Newton start on {} inputs whose conjugacy error exceeds the tolerance (one of them is reported)", k));
     }
 }
 
